@@ -143,7 +143,7 @@ def Open(tag="el", define=(), sw=NOE, cs=NOE, cond=NOE, rep=None, sub=None, omit
         it["um"] = {"m": "no", "mname": "", "whole": False, "lib": 0, "ext": False, "fills": []}
     it["mslots"] = []
     # I18N: domain / context / target settings of the element
-    it["i18n"] = dict({"m": "no", "d": "", "c": "", "t": ""}, **(i18n or {}))
+    it["i18n"] = dict({"m": "no", "d": "", "c": "", "t": "", "tv": ""}, **(i18n or {}))   # tv: the target is read from this variable
     if i18n:
         it["i18n"]["m"] = "yes"
     # i18n:translate (tr: None | "" | explicit id), i18n:name (nm), i18n:attributes (ia: [(name, id or "")])
